@@ -2,83 +2,10 @@
 
 package sequtils
 
-import (
-	"github.com/biogo/biogo/feat"
-	"github.com/biogo/biogo/seq/alignment"
-	"github.com/biogo/biogo/seq/linear"
-)
-
 // Contracts for the deductive verifier in /verif (govc). Only compiled with -tags verif.
 //
-// Truncate and Join are generic over interfaces; they are verified through clients that fix the
-// concrete sequence type (*linear.Seq). The verifier resolves every interface call inside the real
-// Truncate/Join body statically and inlines it, so what is proved is the real code specialised
-// to that type.
-
-//@ func verifLemmaTruncateLinear
-//@   property C06
-//@   lemma
-//@   requires src != nil && dst != nil
-//@   ensures [error-iff] (result != nil) <==> !(start >= old(src.Offset) && end <= old(src.Offset) + old(len(src.Seq)) && (start <= end || (old(src.Conform) != 0 && end >= old(src.Offset) && start <= old(src.Offset) + old(len(src.Seq)))))
-//@   ensures [linear]    result == nil && start <= end ==> len(dst.Seq) == end - start && dst.Offset == start && dst.Conform == 0 && forall k int :: 0 <= k && k < end - start ==> dst.Seq[k] == old(src.Seq[start - src.Offset + k])
-//@   ensures [circular-head] result == nil && start > end ==> len(dst.Seq) == old(len(src.Seq)) - (start - old(src.Offset)) + (end - old(src.Offset)) && dst.Offset == start && dst.Conform == 0
-//@   ensures [circular-a] result == nil && start > end ==> forall k int :: 0 <= k && k < old(len(src.Seq)) - (start - old(src.Offset)) ==> dst.Seq[k] == old(src.Seq[start - src.Offset + k])
-//@   ensures [circular-b] result == nil && start > end ==> forall k int :: 0 <= k && k < end - old(src.Offset) ==> dst.Seq[old(len(src.Seq)) - (start - old(src.Offset)) + k] == old(src.Seq[k])
-//@   ensures [independent] result == nil && dst != src ==> (fresh(dst.Seq) || len(dst.Seq) == 0) && src.Seq == old(src.Seq) && src.Offset == old(src.Offset) && forall k int :: 0 <= k && k < len(src.Seq) ==> src.Seq[k] == old(src.Seq[k])
-//@   ensures [rejected]  result != nil ==> dst.Seq == old(dst.Seq) && dst.Offset == old(dst.Offset) && src.Seq == old(src.Seq)
-func verifLemmaTruncateLinear(dst, src *linear.Seq, start, end int) error {
-	return Truncate(dst, src, start, end)
-}
-
-// Join: concatenation in the requested order; prepending moves the offset; circular operands are rejected.
-//@ func verifLemmaJoinLinear
-//@   property C06
-//@   lemma
-//@   requires src != nil && dst != nil && dst != src && (where == 1 || where == 2)
-//@   ensures [circular]  (result != nil) <==> (old(dst.Conform) > 0 || old(src.Conform) > 0)
-//@   ensures [prepend]   result == nil && where == 1 ==> len(dst.Seq) == old(len(src.Seq)) + old(len(dst.Seq)) && dst.Offset == -old(len(src.Seq))
-//@   ensures [prepend-a] result == nil && where == 1 ==> forall k int :: 0 <= k && k < old(len(src.Seq)) ==> dst.Seq[k] == old(src.Seq[k])
-//@   ensures [prepend-b] result == nil && where == 1 ==> forall k int :: 0 <= k && k < old(len(dst.Seq)) ==> dst.Seq[old(len(src.Seq)) + k] == old(dst.Seq[k])
-//@   ensures [append]    result == nil && where == 2 ==> len(dst.Seq) == old(len(src.Seq)) + old(len(dst.Seq)) && dst.Offset == old(dst.Offset)
-//@   ensures [append-a]  result == nil && where == 2 ==> forall k int :: 0 <= k && k < old(len(dst.Seq)) ==> dst.Seq[k] == old(dst.Seq[k])
-//@   ensures [append-b]  result == nil && where == 2 ==> forall k int :: 0 <= k && k < old(len(src.Seq)) ==> dst.Seq[old(len(dst.Seq)) + k] == old(src.Seq[k])
-//@   ensures [source]    src.Seq == old(src.Seq) && forall k int :: 0 <= k && k < len(src.Seq) ==> src.Seq[k] == old(src.Seq[k])
-func verifLemmaJoinLinear(dst, src *linear.Seq, where int) error {
-	return Join(dst, src, where)
-}
-
-// ---- the same contracts on quality-carrying sequences (*linear.QSeq) ----
-//@ func verifLemmaTruncateQLinear
-//@   property C06
-//@   lemma
-//@   requires src != nil && dst != nil
-//@   ensures [error-iff] (result != nil) <==> !(start >= old(src.Offset) && end <= old(src.Offset) + old(len(src.Seq)) && (start <= end || (old(src.Conform) != 0 && end >= old(src.Offset) && start <= old(src.Offset) + old(len(src.Seq)))))
-//@   ensures [linear]    result == nil && start <= end ==> len(dst.Seq) == end - start && dst.Offset == start && dst.Conform == 0 && forall k int :: 0 <= k && k < end - start ==> dst.Seq[k] == old(src.Seq[start - src.Offset + k])
-//@   ensures [circular-head] result == nil && start > end ==> len(dst.Seq) == old(len(src.Seq)) - (start - old(src.Offset)) + (end - old(src.Offset)) && dst.Offset == start && dst.Conform == 0
-//@   ensures [circular-a] result == nil && start > end ==> forall k int :: 0 <= k && k < old(len(src.Seq)) - (start - old(src.Offset)) ==> dst.Seq[k] == old(src.Seq[start - src.Offset + k])
-//@   ensures [circular-b] result == nil && start > end ==> forall k int :: 0 <= k && k < end - old(src.Offset) ==> dst.Seq[old(len(src.Seq)) - (start - old(src.Offset)) + k] == old(src.Seq[k])
-//@   ensures [independent] result == nil && dst != src ==> (fresh(dst.Seq) || len(dst.Seq) == 0) && src.Seq == old(src.Seq) && src.Offset == old(src.Offset) && forall k int :: 0 <= k && k < len(src.Seq) ==> src.Seq[k] == old(src.Seq[k])
-//@   ensures [rejected]  result != nil ==> dst.Seq == old(dst.Seq) && dst.Offset == old(dst.Offset) && src.Seq == old(src.Seq)
-func verifLemmaTruncateQLinear(dst, src *linear.QSeq, start, end int) error {
-	return Truncate(dst, src, start, end)
-}
-
-// Join on quality-carrying sequences.
-//@ func verifLemmaJoinQLinear
-//@   property C06
-//@   lemma
-//@   requires src != nil && dst != nil && dst != src && (where == 1 || where == 2)
-//@   ensures [circular]  (result != nil) <==> (old(dst.Conform) > 0 || old(src.Conform) > 0)
-//@   ensures [prepend]   result == nil && where == 1 ==> len(dst.Seq) == old(len(src.Seq)) + old(len(dst.Seq)) && dst.Offset == -old(len(src.Seq))
-//@   ensures [prepend-a] result == nil && where == 1 ==> forall k int :: 0 <= k && k < old(len(src.Seq)) ==> dst.Seq[k] == old(src.Seq[k])
-//@   ensures [prepend-b] result == nil && where == 1 ==> forall k int :: 0 <= k && k < old(len(dst.Seq)) ==> dst.Seq[old(len(src.Seq)) + k] == old(dst.Seq[k])
-//@   ensures [append]    result == nil && where == 2 ==> len(dst.Seq) == old(len(src.Seq)) + old(len(dst.Seq)) && dst.Offset == old(dst.Offset)
-//@   ensures [append-a]  result == nil && where == 2 ==> forall k int :: 0 <= k && k < old(len(dst.Seq)) ==> dst.Seq[k] == old(dst.Seq[k])
-//@   ensures [append-b]  result == nil && where == 2 ==> forall k int :: 0 <= k && k < old(len(src.Seq)) ==> dst.Seq[old(len(dst.Seq)) + k] == old(src.Seq[k])
-//@   ensures [source]    src.Seq == old(src.Seq) && forall k int :: 0 <= k && k < len(src.Seq) ==> src.Seq[k] == old(src.Seq[k])
-func verifLemmaJoinQLinear(dst, src *linear.QSeq, where int) error {
-	return Join(dst, src, where)
-}
+// Truncate, Join, Stitch and Compose are generic over interfaces; they are verified through the lemma clients
+// of the verif-only package seq/sequtils/verifclients, which fix the concrete sequence type.
 
 // ---- Trim -----------------------------------------------------------------------------
 // eAt(q, i): the error probability the feature reports at i; S(q, limit, i): prefix sums of (limit - error)
@@ -120,17 +47,6 @@ func verifLemmaJoinQLinear(dst, src *linear.QSeq, where int) error {
 //@   loop 4 invariant typeis(sl, alphabet.Letters) && pLen == len(sl.(alphabet.Letters)) && sl.(alphabet.Letters) == old(src.(*linear.Seq).Seq)
 //@   loop 4 writes fresh
 
-//@ func verifLemmaStitchLinear
-//@   property C06
-//@   lemma
-//@   requires src != nil && dst != nil && fs != nil
-//@   ensures [linear] result == nil ==> dst.Offset == 0 && dst.Conform == 0
-//@   ensures [independent] dst != src ==> src.Seq == old(src.Seq) && src.Offset == old(src.Offset) && forall k int :: 0 <= k && k < len(src.Seq) ==> src.Seq[k] == old(src.Seq[k])
-//@   ensures [fresh] result == nil ==> fresh(dst.Seq) || len(dst.Seq) == 0
-func verifLemmaStitchLinear(dst, src *linear.Seq, fs feat.Set) error {
-	return Stitch(dst, src, fs)
-}
-
 // ---- Compose (C06): safety and frame ------------------------------------------------------
 // As for Stitch: proved for all inputs on *linear.Seq - no index outside the source, every segment is copied
 // into fresh storage before it is reversed, the source is untouched when dst != src and shares no storage with
@@ -147,26 +63,3 @@ func verifLemmaStitchLinear(dst, src *linear.Seq, fs feat.Set) error {
 //@   loop 2 invariant typeis(c, alphabet.Letters) && fresh(c.(alphabet.Letters)) && allocated(c.(alphabet.Letters))
 //@   loop 2 invariant r == nil || (typeis(r, *linear.Seq) && fresh(ref(r)) && allocated(ref(r)) && -1 <= r.(*linear.Seq).Strand && r.(*linear.Seq).Strand <= 1)
 //@   loop 2 writes fresh
-
-//@ func verifLemmaComposeLinear
-//@   property C06
-//@   lemma
-//@   requires src != nil && dst != nil && fs != nil && src.Alpha != nil && (implements(src.Alpha, alphabet.Complementor) ==> allocated(tabArr(src.Alpha)))
-//@   ensures [linear] result == nil ==> dst.Offset == 0 && dst.Conform == 0
-//@   ensures [independent] dst != src ==> src.Seq == old(src.Seq) && src.Offset == old(src.Offset) && forall k int :: 0 <= k && k < len(src.Seq) ==> src.Seq[k] == old(src.Seq[k])
-//@   ensures [fresh] result == nil ==> fresh(dst.Seq) || len(dst.Seq) == 0
-func verifLemmaComposeLinear(dst, src *linear.Seq, fs feat.Set) error {
-	return Compose(dst, src, fs)
-}
-
-// ---- Truncate on a column-stored alignment (C07): exactly the requested columns are kept ----
-//@ func verifLemmaTruncateAlignment
-//@   property C07
-//@   lemma
-//@   requires src != nil && dst != nil && len(src.Seq) > 0
-//@   ensures [error-iff] (result != nil) <==> !(start >= old(src.Offset) && end <= old(src.Offset) + old(len(src.Seq)) && (start <= end || (old(src.Conform) != 0 && end >= old(src.Offset) && start <= old(src.Offset) + old(len(src.Seq)))))
-//@   ensures [columns]   result == nil && start <= end ==> len(dst.Seq) == end - start && dst.Offset == start && dst.Conform == 0 && forall k int :: 0 <= k && k < end - start ==> dst.Seq[k] == old(src.Seq[start - src.Offset + k])
-//@   ensures [rejected]  result != nil ==> dst.Seq == old(dst.Seq) && dst.Offset == old(dst.Offset) && src.Seq == old(src.Seq)
-func verifLemmaTruncateAlignment(dst, src *alignment.Seq, start, end int) error {
-	return Truncate(dst, src, start, end)
-}
